@@ -250,6 +250,34 @@ class World:
         sh.cut(r"^std::vec::Vec::<json_syntax::object::Entry<.*>>::new$|^<std::vec::Vec<json_syntax::object::Entry<.*>> as std::default::Default>::default$", "vec_new",
                ret=lambda it, st, c, a: st.new_obj(AVec((), "entries")))
 
+        # cloning: the table's clone holds the same positions; a vector of entries is cloned element by element
+        def im_clone(it, st, c, a):
+            _, m = W.idx_of(st, a[0])
+            return st.new_obj(m)
+
+        sh.cut(r"^<json_syntax::object::index_map::IndexMap(<.*>)? as std::clone::Clone>::clone$", "im_clone", ret=im_clone)
+
+        def im_clone_from(it, st, c, a):
+            iid, _ = W.idx_of(st, a[0])
+            _, m = W.idx_of(st, a[1])
+            st.heap[iid] = m
+            return UNIT
+
+        sh.cut(r"^<json_syntax::object::index_map::IndexMap(<.*>)? as std::clone::Clone>::clone_from$", "im_clone_from", ret=im_clone_from)
+
+        def vec_clone(it, st, c, a):
+            return st.new_obj(AVec(tuple(W.slice_items(st, a[0])), "entries"))
+
+        sh.cut(r"^<std::vec::Vec<json_syntax::object::Entry<.*>> as std::clone::Clone>::clone$", "vec_clone", ret=vec_clone)
+
+        def vec_clone_from(it, st, c, a):
+            from .summ import _obj_of
+            oid = _obj_of(it, st, a[0], "clone_from")
+            st.heap[oid] = AVec(tuple(W.slice_items(st, a[1])), "entries")
+            return UNIT
+
+        sh.cut(r"^<std::vec::Vec<json_syntax::object::Entry<.*>> as std::clone::Clone>::clone_from$", "vec_clone_from", ret=vec_clone_from)
+
         def im_dup(it, st, c, a):
             _, m = W.idx_of(st, a[0])
             return Conc(int(any(len(p) > 1 for _, p in m.m)))
